@@ -234,6 +234,7 @@ def run_scenario(seed, shard, idx):
 
 def shard_main(payload):
     seed, shard, lo, hi, _tier = payload
+    driver.warm_up()
     agg = {"runs": 0, "steps": 0, "violations": [], "behaviours": set(),
            "digests": [], "samples": [], "exit0": 0, "secrets": 0,
            "shared": 0, "peer_calls": 0, "peer_faults_fired": {},
